@@ -195,7 +195,7 @@ def alphabet(nlabels: int) -> List[Tuple]:
 def replay_history(packcfg, nlabels, hist) -> Run:
     r = Run(packcfg, nlabels)
     try:
-        with deadline(5):
+        with deadline(0.2):  # a queue operation takes microseconds
             for op in hist:
                 r.apply(op)
                 if r.error:
